@@ -44,7 +44,7 @@ open Life
 /-- **C04, all schedules, full strength.** For every actor and every sequence of operations the
 actor's trace is accepted by the supervision-event automaton. -/
 theorem reported_once (id : Nat) (ops : List AOp) : Life.C04.ok id (trace id ops) = true := by
-  obtain ⟨s', h, _⟩ := Life.C04.run_sim id ops (Actor.init id) {} (Life.C04.inv_init id)
+  obtain ⟨s', h, _⟩ := Life.C04.run_sim id ops (Actor.init id) {} (Life.C04.inv_init id) {} (Life.C01.inv_init id) (cellOk_init id)
   simp [Life.C04.ok, trace, h, Except.isOk, Except.toBool]
 
 /-- **The same for the composed world** (what the driver replays): in every run of `World.step`
@@ -68,7 +68,7 @@ reason / drain marker / kill is known to the automaton; the automaton's supervis
 theorem invariant (id : Nat) (ops : List AOp) :
     ∃ s, accepts (Life.C04.next id) {} (trace id ops) = .ok s ∧
       Life.C04.Inv id ((Actor.init id).run ops).1 s :=
-  Life.C04.run_sim id ops (Actor.init id) {} (Life.C04.inv_init id)
+  Life.C04.run_sim id ops (Actor.init id) {} (Life.C04.inv_init id) {} (Life.C01.inv_init id) (cellOk_init id)
 
 /-- A failed start-up (`pre_start` Err / panic, kill during start-up, refused link) emits nothing
 and the actor is done: `failSpawn` produces only the spawn result. -/
@@ -97,12 +97,13 @@ theorem failed_spawn_leaves_nothing (id : Nat) (ops : List AOp)
 `pre_start`: the first poll of the start task enters no callback, emits no supervision event (even
 though a thread-local cell was linked to its supervisor an instant before), reports
 `Err("Actor killed during startup")` through the start handle and leaves the cell `done`. -/
-theorem instant_kill_before_start (a : Actor) (supOk : Bool) (hph : a.phase = .cell) (hk : a.sigVal = true) :
+theorem instant_kill_before_start (a : Actor) (supOk : Bool) (hph : a.phase = .cell)
+    (hst : a.status = .unstarted) (hk : a.sigVal = true) :
     (∀ e ∈ evs (opPollSpawn a supOk).2, e = .spawnRet .killed ∨ e = .spawnRet .nolink) ∧
     (opPollSpawn a supOk).1.phase = .done := by
   have hc := Life.C04.cleanup_none
   unfold opPollSpawn startInstant
-  simp only [hph]
+  simp only [hph, hst, ne_eq, not_true_eq_false, ↓reduceIte]
   have hb : ∀ b : Actor, b.sigVal = true →
       (∀ e ∈ evs (beginPre b).2, e = .spawnRet .killed ∨ e = .spawnRet .nolink) ∧ (beginPre b).1.phase = .done := by
     intro b hb
@@ -126,6 +127,32 @@ theorem instant_kill_before_start (a : Actor) (supOk : Bool) (hph : a.phase = .c
         · exact (hb _ (by simpa using hk)).2
     · exact hb _ (by simpa using hk)
   · exact hb _ (by simpa using hk)
+
+/-- **A cell handed out by `spawn_instant` is always started**: in every reachable state a cell whose start
+task has not run is `Unstarted` (`Lemmas/LifeCell.lean`), so the "cannot start an actor more than once" test of
+`start()` never fires — no sequence of sends, stops, kills, drains, links, … on the `ActorRef` makes the
+start task return `Err(ActorAlreadyStarted)` (this is repo fix e926850, for all op sequences). -/
+theorem instant_start_never_refused (id : Nat) (ops : List AOp) :
+    CellOk ((Actor.init id).run ops).1 ∧ Ev.spawnRet .already ∉ trace id ops := by
+  refine ⟨cellOk_run ops (Actor.init id) {} (Life.C01.inv_init id) (cellOk_init id), ?_⟩
+  obtain ⟨s', h, _⟩ := Life.C04.run_sim id ops (Actor.init id) {} (Life.C04.inv_init id) {} (Life.C01.inv_init id) (cellOk_init id)
+  -- an accepted trace cannot contain an event the automaton rejects in every state
+  have key : ∀ (tr : List Ev) (s s1 : Life.C04.St), accepts (Life.C04.next id) s tr = .ok s1 →
+      Ev.spawnRet .already ∉ tr := by
+    intro tr
+    induction tr with
+    | nil => intro _ _ _ hm; cases hm
+    | cons e es ih =>
+      intro s s1 hacc hm
+      rw [accepts_cons] at hacc
+      cases hn : Life.C04.next id s e with
+      | error c => simp [hn] at hacc
+      | ok s2 =>
+        simp only [hn] at hacc
+        rcases List.mem_cons.mp hm with hm | hm
+        · subst hm; simp [Life.C04.next] at hn
+        · exact ih s2 s1 hacc hm
+  exact key _ _ _ h
 
 /-- The public `ActorCell::link` / `unlink` emit nothing: a re-link never produces (or duplicates) a
 lifecycle event; it only changes who the supervisor *is* (`supIs` after the op), and `reported_once`
@@ -371,6 +398,7 @@ end C04
 #print axioms C04.prestart_failure_silent
 #print axioms C04.failed_spawn_leaves_nothing
 #print axioms C04.instant_kill_before_start
+#print axioms C04.instant_start_never_refused
 #print axioms C04.relink_silent
 #print axioms C04.relink_target
 #print axioms C04.emitted_is_delivered
